@@ -11,7 +11,7 @@ import sys
 import time
 
 REPO = os.environ.get('VERIF_REPO', '/repo')
-CACHE = os.environ.get('VERIF_CACHE', '/verif/.cache')
+CACHE = os.environ.get('VERIF_CACHE') or os.path.join(os.path.dirname(os.path.dirname(os.path.abspath(__file__))), '.cache')
 
 SKIP_DIRS = {'target', '.git', '.github', '.devcontainer', 'docs', '.vscode', '.idea'}
 
